@@ -94,13 +94,119 @@ def _run_contract_task_inner(task):
         v = _get_verifier()
         res, info = v.run_contract(c, scenario_filter=set(names) if names is not None else None)
         fv = v.target_func(c)
-        return dict(idx=idx, ok=True, results=[_res_to_dict(r) for r in res],
+        cross = _crosscheck(c, names if names is not None else [n for n, _ in c.scenarios], res)
+        return dict(idx=idx, ok=True, results=[_res_to_dict(r) for r in res], crosscheck=cross,
                     info=dict(paths=info["paths"], infeasible=info["infeasible"], exits=info["exits"],
                               assumed=sorted(info["assumed"]), unsupported=info["unsupported"],
                               sha=info.get("source_sha256"), lines=info.get("source_lines")),
                     secs=time.time() - t0, stats=dict(smt.STATS))
     except Exception as e:
         return dict(idx=idx, ok=False, error=f"{type(e).__name__}: {e}", tb=traceback.format_exc(), secs=time.time() - t0)
+
+
+_INTS = [-4, -2, -1, 0, 1, 2, 4, 8, 16]   # powers of two: quotients of sampled integers are exact in binary floating point
+_REALS = [-2.5, -1.0, 0.0, 0.5, 1.0, 1.5, 2.0, 3.25, 10.0, 0.125, 100.0, 4.0]
+
+
+def _sample(rng, kinds):
+    vals = {}
+    for name, kind in kinds.items():
+        if kind == "int":
+            vals[name] = rng.choice(_INTS)
+        elif kind == "real":
+            vals[name] = rng.choice(_REALS)
+        elif kind == "bool":
+            vals[name] = rng.random() < 0.5
+        elif kind.startswith("seq:"):
+            ek = kind[4:]
+            vals[name] = [(_sample(rng, {"x": ek})["x"]) for _ in range(rng.randint(0, 4))] if ek in ("int", "real", "bool") else []
+        else:
+            return None   # symbolic strings: no sampling
+    return vals
+
+
+def _native_in_child(c, sname, vals):
+    """one native evaluation in a forked child: the real code may leave process-wide tables changed (that is what some
+    scenarios are about), which must not leak into the next sample"""
+    import pickle
+    from .native import run_native
+    r, w = os.pipe()
+    pid = os.fork()
+    if pid == 0:
+        try:
+            os.close(r)
+            try:
+                o = run_native(c, sname, vals, tolerant=True)
+                d = dict(pre_ok=o.pre_ok, error=o.error, failed=[(l, str(x)[:300]) for l, x in o.failed], exit=o.exit,
+                         exc_type=type(o.exc).__name__ if o.exc is not None else None, exc_text=repr(o.exc)[:300] if o.exc is not None else None)
+            except BaseException as e:
+                d = None
+            with os.fdopen(w, "wb") as f:
+                pickle.dump(d, f)
+        finally:
+            os._exit(0)
+    os.close(w)
+    with os.fdopen(r, "rb") as f:
+        data = f.read()
+    os.waitpid(pid, 0)
+    try:
+        return pickle.loads(data) if data else None
+    except Exception:
+        return None
+
+
+def _crosscheck(c, snames, res):
+    """CPython cross-check of the proof: the real function is run on sampled inputs that satisfy the precondition and the
+    same clauses are evaluated natively; a clause that was proved on every path but fails natively is a disagreement
+    (engine defect, or float rounding where the proof is over the reals)"""
+    per = int(os.environ.get("PYVC_CROSSCHECK", "1" if os.environ.get("PYVC_TIER", "quick") == "quick" else "4"))
+    if per <= 0 or c.lemma_only:
+        return dict(evaluations=0, disagreements=[])
+    from .native import run_native
+    from .builders import NativeBuilder, AssumptionFailed
+    proved = {}
+    for r in res:
+        proved[r.name] = proved.get(r.name, True) and r.status == "proved"
+    rng = random.Random(hashlib.sha1(c.name.encode()).hexdigest())
+    n, dis = 0, []
+    t0 = time.time()
+    for sname in snames:
+        if time.time() - t0 > 60:
+            break
+        builder = dict(c.scenarios)[sname]
+        try:
+            b = NativeBuilder({})
+            try:
+                builder(b)
+            except AssumptionFailed:
+                pass
+            kinds = dict(b.names)
+        except Exception:
+            continue
+        done = 0
+        for attempt in range(per * 6):
+            if done >= per:
+                break
+            vals = _sample(rng, kinds)
+            if vals is None:
+                break
+            o = _native_in_child(c, sname, vals)
+            if o is None or not o["pre_ok"] or o["error"]:
+                continue
+            if o["exc_type"] in ("ZeroDivisionError", "OverflowError") or "complex" in (o["exc_text"] or "") or "math domain" in (o["exc_text"] or ""):
+                continue   # outside the real-arithmetic model of the proof (stated assumption), not a disagreement
+            done += 1
+            n += 1
+            for lab, detail in o["failed"]:
+                lab0 = lab.split(" (clause raised")[0]
+                name = f"{sname}/{lab0}"
+                if "ZeroDivisionError" in lab or "complex" in lab or "OverflowError" in lab or "math domain" in lab or "nan" in str(detail) or "inf" in str(detail):
+                    continue
+                if proved.get(name) and len(dis) < 20:
+                    dis.append(dict(obligation=name, inputs=vals, detail=str(detail)[:300], label=lab[:200]))
+            if not kinds:
+                break   # no symbols: one evaluation says it all
+    return dict(evaluations=n, disagreements=dis)
 
 
 def _run_lemma_task(idx):
@@ -164,6 +270,10 @@ def run_property(prop, tier="quick", seed=0, jobs=None, verbose=False):
                     out["contracts"][ci] = r
                 continue
             prev["results"] += r["results"]
+            if r.get("crosscheck"):
+                pc = prev.setdefault("crosscheck", dict(evaluations=0, disagreements=[]))
+                pc["evaluations"] += r["crosscheck"]["evaluations"]
+                pc["disagreements"] += r["crosscheck"]["disagreements"]
             for k2 in ("paths", "infeasible"):
                 prev["info"][k2] += r["info"][k2]
             for k2, v2 in r["info"]["exits"].items():
@@ -187,6 +297,7 @@ def aggregate(prop, contracts, lemmas, out):
         meta[c.name] = r["info"]
         meta[c.name]["target"] = c.target
         meta[c.name]["secs"] = round(r["secs"], 3)
+        meta[c.name]["crosscheck"] = r.get("crosscheck") or dict(evaluations=0, disagreements=[])
         for x in r["results"]:
             name = f"{prop}/{c.name}/{x['name']}"
             o = obs.setdefault(name, dict(status="proved", backends=set(), secs=0.0, paths=0, fail=None,
